@@ -209,7 +209,7 @@ fn c18_case<K: Kmer + Send + Sync>(c: &mut Case, gc: &GCase) -> Result<(), Strin
 pub const RULE_C18: &str = "case = graph built from a hostile read set (direct pipeline) plus a synthetic multi-node graph with node lengths K..K+70; every node's iterator is driven twice by a random interleaving of next() and nth(n) with n in {0, 0-4, 5-12, remaining-1, remaining, remaining+1.., usize::MAX-ish, random} against a model cursor until 4 pulls after the end; checked: item == model window, None exactly when the model is exhausted, no Some after the end, len()/size_hint up front; iteration over &graph == all windows once in order; Mphf::from_chunked_iterator and _parallel (2,3,8 threads) are bijections; distinct = hash(read set, synthetic node count); non-trivial = more than one node";
 
 pub fn run_c18(ctx: &Ctx) {
-    let n = ctx.n(4000, 300_000);
+    let n = ctx.n(12_000, 600_000);
     ctx.run_group("iterate", n, false, |c| {
         let gc = gen_gcase(c);
         with_graph_k!(gc.kidx, K => c18_case::<K>(c, &gc))
